@@ -3,6 +3,8 @@ use super::{get_reporter, Reporter};
 use crate::config::Address;
 use atomic_enum::atomic_enum;
 use parking_lot::RwLock;
+#[cfg(pgcat_verif)]
+use simcore::rand_shim as rand;
 use std::sync::atomic::*;
 use std::sync::Arc;
 use tokio::time::Instant;
